@@ -179,3 +179,225 @@ func VH19a_sweep() {
 	}
 	sock.Close()
 }
+
+func wireIn(proto string, tag byte) []byte {
+	switch proto {
+	case "rep", "xrep", "respondent", "xrespondent", "xreq", "xsurveyor":
+		return []byte{0x80, 0, 0, 1, tag}
+	case "pair1", "xpair1", "star", "xstar":
+		return []byte{0, 0, 0, 0, tag}
+	}
+	return []byte{tag}
+}
+
+// VH19b_resize: changing a queue length never disconnects a peer, and traffic
+// keeps flowing afterwards.
+func VH19b_resize() {
+	pi := verif.Param("proto", 0)
+	proto := vp.Names[pi]
+	lab := "C19/resize/" + proto
+	sock := vp.New(proto)
+	if proto == "sub" {
+		sock.SetOption(mangos.OptionSubscribe, []byte{})
+	}
+	side := vt.Listen(sock, "a")
+	p1 := side.Peer("p1")
+	opt := []string{mangos.OptionReadQLen, mangos.OptionWriteQLen}[verif.Choice("which", 2)]
+	v := verif.Int("qlen")
+	verif.Assume(verif.And(v >= 0, v <= 3))
+	// some traffic before: inbound messages queued (where the pattern receives); with "full" the receive
+	// queue is first shrunk to 1 and over-filled, so that the pipe's receiver goroutine is parked on it
+	if verif.Choice("full", 2) == 1 {
+		if sock.SetOption(mangos.OptionReadQLen, 1) != nil {
+			verif.Assume(false)
+		}
+		p1.Deliver(wireIn(proto, 'x'))
+		p1.Deliver(wireIn(proto, 'y'))
+		p1.Deliver(wireIn(proto, 'z'))
+	}
+	p1.Deliver(wireIn(proto, 'a'))
+	verif.Quiesce()
+	pending := verif.Choice("receiver-waiting", 2) == 1
+	var g0 *verif.G
+	if pending {
+		g0 = verif.Go("recv0", func() { sock.RecvMsg() })
+		verif.Quiesce()
+	}
+	err := sock.SetOption(opt, v)
+	verif.Quiesce()
+	if err != nil {
+		verif.Assert(err == mangos.ErrBadOption, lab+"/qlen-in-range-rejected")
+		return
+	}
+	verif.Reach("resized")
+	verif.Assert(p1.CloseCalls == 0 && !p1.Closed, lab+"/"+opt+"/peer-disconnected-by-queue-resize")
+	// traffic after the resize still flows in the directions the pattern has
+	var m *mangos.Message
+	var rerr error
+	g := verif.Go("recv", func() { m, rerr = sock.RecvMsg() })
+	verif.Quiesce()
+	p1.Deliver(wireIn(proto, 'b'))
+	verif.Quiesce()
+	if g.Done() && rerr == mangos.ErrProtoOp {
+		verif.Reach("send-only-pattern")
+	} else if proto != "req" && proto != "surveyor" {
+		// REQ/SURVEYOR deliver only answers to an outstanding request; others must deliver 'b' (or the queued 'a')
+		verif.Assert(g.Done(), lab+"/"+opt+"/no-delivery-after-resize")
+		if g.Done() {
+			verif.Assert(rerr == nil, lab+"/"+opt+"/recv-error-after-resize")
+		}
+	}
+	verif.Assert(p1.CloseCalls == 0 && !p1.Closed, lab+"/"+opt+"/peer-disconnected-after-resize-traffic")
+	_ = m
+	_ = g0
+	sock.Close()
+}
+
+// VH19b_zero: an accepted zero duration means "no limit".
+func VH19b_zero() {
+	pi := verif.Param("proto", 0)
+	proto := vp.Names[pi]
+	lab := "C19/zero/" + proto
+	sock := vp.New(proto)
+	side := vt.Listen(sock, "a")
+	p1 := side.Peer("p1")
+	switch verif.Choice("opt", 3) {
+	case 0: // receive deadline 0: Recv waits
+		if sock.SetOption(mangos.OptionRecvDeadline, time.Duration(0)) != nil {
+			verif.Assume(false)
+		}
+		var err error
+		g := verif.Go("recv", func() { _, err = sock.RecvMsg() })
+		verif.Quiesce()
+		if g.Done() {
+			verif.Assert(err != mangos.ErrRecvTimeout, lab+"/zero-recv-deadline-times-out")
+			break
+		}
+		for i := 0; i < 3; i++ {
+			verif.FireTimer()
+		}
+		verif.Assert(!g.Done() || err != mangos.ErrRecvTimeout, lab+"/zero-recv-deadline-times-out")
+		verif.Reach("recv-waits")
+	case 1: // send deadline 0: a Send that cannot complete waits
+		if sock.SetOption(mangos.OptionSendDeadline, time.Duration(0)) != nil {
+			verif.Assume(false)
+		}
+		p1.SendMode = vt.SendBlock
+		timedOut := false
+		for i := 0; i < 6; i++ {
+			var err error
+			m := mangos.NewMessage(1)
+			m.Body = append(m.Body, 'x')
+			if proto == "xpair1" || proto == "xstar" {
+				m.Header = append(m.Header, 0, 0, 0, 0)
+			}
+			g := verif.Go("send", func() { err = sock.SendMsg(m) })
+			verif.Quiesce()
+			if !g.Done() {
+				for k := 0; k < 3; k++ {
+					verif.FireTimer()
+				}
+			}
+			if g.Done() && err == mangos.ErrSendTimeout {
+				timedOut = true
+			}
+		}
+		verif.Assert(!timedOut, lab+"/zero-send-deadline-times-out")
+		verif.Reach("send-waits")
+	case 2: // survey time 0: the survey never expires
+		if proto != "surveyor" {
+			verif.Assume(false)
+		}
+		verif.Assert(sock.SetOption(mangos.OptionSurveyTime, time.Duration(0)) == nil, lab+"/survey-time-zero-rejected")
+		verif.Assert(sock.Send([]byte{'q'}) == nil, lab+"/survey-send")
+		verif.Quiesce()
+		for i := 0; i < 3; i++ {
+			verif.FireTimer()
+		}
+		if len(p1.Sent) == 0 {
+			verif.Fail(lab + "/survey-not-sent")
+			return
+		}
+		h := p1.Sent[0].H
+		p1.Deliver(append(append([]byte{}, h...), 'r'))
+		var m *mangos.Message
+		var err error
+		g := verif.Go("recv", func() { m, err = sock.RecvMsg() })
+		verif.Quiesce()
+		verif.Assert(g.Done() && err == nil, lab+"/survey-time-zero-expired-the-survey")
+		_ = m
+		verif.Reach("survey-infinite")
+	}
+	sock.Close()
+}
+
+// VH19c_unsupported: operations a pattern does not have fail with the designated error and no side effect.
+func VH19c_unsupported() {
+	pi := verif.Param("proto", 0)
+	proto := vp.Names[pi]
+	lab := "C19/unsupported/" + proto
+	sock := vp.New(proto)
+	side := vt.Listen(sock, "a")
+	p1 := side.Peer("p1")
+	recvOnly := proto == "sub" || proto == "xsub" || proto == "pull" || proto == "xpull"
+	sendOnly := proto == "pub" || proto == "xpub" || proto == "push" || proto == "xpush"
+	if recvOnly {
+		m := mangos.NewMessage(1)
+		m.Body = append(m.Body, 'x')
+		err := sock.SendMsg(m)
+		verif.Assert(err == mangos.ErrProtoOp, lab+"/send-on-receive-only-pattern")
+		verif.Assert(len(m.Body) == 1 && m.Body[0] == 'x', lab+"/failed-send-changed-message")
+		verif.Quiesce()
+		verif.Assert(len(p1.Sent) == 0, lab+"/send-on-receive-only-pattern-transmitted")
+		verif.Reach("recv-only")
+	}
+	if sendOnly {
+		_, err := sock.RecvMsg()
+		verif.Assert(err == mangos.ErrProtoOp, lab+"/recv-on-send-only-pattern")
+		verif.Reach("send-only")
+	}
+	hasCtx := proto == "req" || proto == "rep" || proto == "sub" || proto == "surveyor" || proto == "respondent"
+	c, err := sock.OpenContext()
+	if hasCtx {
+		verif.Assert(err == nil, lab+"/context-refused")
+		if err == nil {
+			c.Close()
+		}
+	} else {
+		verif.Assert(err == mangos.ErrProtoOp && c == nil, lab+"/context-on-pattern-without-contexts")
+	}
+	verif.Assert(!p1.Closed, lab+"/peer-disturbed")
+	verif.Assert(verif.LiveGoroutines() <= 6, lab+"/goroutines-started")
+	sock.Close()
+}
+
+// VH19c_device: Device on cooked / mismatched / nil sockets.
+func VH19c_device() {
+	lab := "C19/device"
+	a := vp.New([]string{"xreq", "req", "xpub", "xbus"}[verif.Choice("a", 4)])
+	b := vp.New([]string{"xrep", "rep", "xsub", "xpull", "xbus"}[verif.Choice("b", 5)])
+	ia, ib := a.Info(), b.Info()
+	ra, _ := a.GetOption(mangos.OptionRaw)
+	rb, _ := b.GetOption(mangos.OptionRaw)
+	err := mangos.Device(a, b)
+	mismatch := ia.Peer != ib.Self || ib.Peer != ia.Self
+	switch {
+	case (ra != true || rb != true) && mismatch:
+		verif.Assert(err == mangos.ErrNotRaw || err == mangos.ErrBadProto, lab+"/cooked-and-mismatched-accepted")
+	case ra != true || rb != true:
+		verif.Assert(err == mangos.ErrNotRaw, lab+"/cooked-socket-accepted")
+		verif.Reach("not-raw")
+	case mismatch:
+		verif.Assert(err == mangos.ErrBadProto, lab+"/mismatched-protocols-accepted")
+		verif.Reach("bad-proto")
+	default:
+		verif.Assert(err == nil, lab+"/valid-device-refused")
+		verif.Reach("ok")
+	}
+	if err != nil {
+		verif.Assert(verif.LiveGoroutines() == 0, lab+"/refused-device-started-goroutines")
+	}
+	verif.Assert(mangos.Device(nil, nil) != nil, lab+"/both-nil-accepted")
+	a.Close()
+	b.Close()
+}
